@@ -34,6 +34,7 @@ func (e *ExitError) Error() string {
 
 type ProjectRunner struct {
 	procConfMutex     sync.Mutex
+	updateMutex       sync.Mutex
 	project           *types.Project
 	logsMutex         sync.Mutex
 	processLogs       map[string]*pclog.ProcessLogBuffer
@@ -173,8 +174,12 @@ func (p *ProjectRunner) runProcess(config *types.ProcessConfig) error {
 	return nil
 }
 
-// runProcessByName launches a new instance of a configured process on behalf of a start or restart request
+// runProcessByName launches a new instance of a configured process on behalf of a start or restart
+// request. Scale and update requests rename and replace processes in several steps: the look-up of
+// the configuration and the registration of the new instance must not interleave with them.
 func (p *ProjectRunner) runProcessByName(name string) error {
+	p.updateMutex.Lock()
+	defer p.updateMutex.Unlock()
 	if processConfig, ok := p.getProcessConfig(name); ok {
 		return p.runProcess(&processConfig)
 	}
@@ -723,7 +728,15 @@ func (p *ProjectRunner) UnSubscribeLogger(name string, observer pclog.LogObserve
 	return nil
 }
 
+// ScaleProcess, UpdateProject and UpdateProcess change the set of processes in several steps:
+// they are serialised with updateMutex
 func (p *ProjectRunner) ScaleProcess(name string, scale int) error {
+	p.updateMutex.Lock()
+	defer p.updateMutex.Unlock()
+	return p.scaleProcess(name, scale)
+}
+
+func (p *ProjectRunner) scaleProcess(name string, scale int) error {
 	if scale < 1 {
 		err := fmt.Errorf("cannot scale process %s to a negative or zero value %d", name, scale)
 		log.Err(err).Msg("scale failed")
@@ -1033,6 +1046,8 @@ func NewProjectRunner(opts *ProjectOpts) (*ProjectRunner, error) {
 }
 
 func (p *ProjectRunner) UpdateProject(project *types.Project) (map[string]string, error) {
+	p.updateMutex.Lock()
+	defer p.updateMutex.Unlock()
 	newProcs := make(map[string]types.ProcessConfig)
 	delProcs := make(map[string]types.ProcessConfig)
 	updatedProcs := make(map[string]types.ProcessConfig)
@@ -1076,7 +1091,7 @@ func (p *ProjectRunner) UpdateProject(project *types.Project) (map[string]string
 	}
 	//Update processes
 	for name, proc := range updatedProcs {
-		err := p.UpdateProcess(&proc)
+		err := p.updateProcess(&proc)
 		if err != nil {
 			log.Err(err).Msgf("Failed to update process %s", name)
 			errs = append(errs, err)
@@ -1109,6 +1124,12 @@ func (p *ProjectRunner) ReloadProject() (map[string]string, error) {
 	return status, nil
 }
 func (p *ProjectRunner) UpdateProcess(updated *types.ProcessConfig) error {
+	p.updateMutex.Lock()
+	defer p.updateMutex.Unlock()
+	return p.updateProcess(updated)
+}
+
+func (p *ProjectRunner) updateProcess(updated *types.ProcessConfig) error {
 	isScaleChanged := false
 	validateProbes(updated.LivenessProbe)
 	validateProbes(updated.ReadinessProbe)
@@ -1137,7 +1158,7 @@ func (p *ProjectRunner) UpdateProcess(updated *types.ProcessConfig) error {
 	p.addProcessAndRun(*updated)
 
 	if isScaleChanged {
-		err = p.ScaleProcess(updated.ReplicaName, updated.Replicas)
+		err = p.scaleProcess(updated.ReplicaName, updated.Replicas)
 		if err != nil {
 			log.Err(err).Msgf("Failed to scale process %s", updated.Name)
 			return err
